@@ -1,4 +1,4 @@
-import XixiKV.Proofs.TransEq2
+import XixiKV.Proofs.TransEq2Codec
 import XixiKV.Proofs.Datatype
 /-!
 # The mechanically translated codecs of the redis-style layer (`datatype/meta.go`) equal the model's
